@@ -223,6 +223,21 @@ mod harness {
         assert!(format_obj("%s", &ObjValue).is_err(), "obligation: in object mode every conversion needs a mapping key");
         assert!(format_obj("%(x)*d", &ObjValue).is_err(), "obligation: * width cannot be used with an object");
     }
+    /// parse_codes: a `%` that is not followed by a complete code -- in particular a lone `%` at the very end -- is an error, never
+    /// dropped; literal text and codes of a well-formed string tile it
+    #[kani::proof] #[kani::unwind(10)] #[kani::stub(alloc::fmt::format, stub_format)]
+    fn h_parse_codes_trailing_percent() {
+        assert!(parse_codes("1%").is_err(), "obligation: a lone % at the end of the format string is a truncated code (error), not dropped");
+        assert!(parse_codes("%d%").is_err(), "obligation: a lone % after a complete code is an error too");
+        assert!(parse_codes("%").is_err(), "obligation: a format string that is just % is an error");
+    }
+    #[kani::proof] #[kani::unwind(10)] #[kani::stub(alloc::fmt::format, stub_format)]
+    fn h_parse_codes_tiling() {
+        match parse_codes("a%db%%") {
+            Ok(v) => assert!(v.len() == 4 && matches!(&v[0], Element::String(t) if t.len() == 1 && t.as_bytes()[0] == b'a') && matches!(&v[1], Element::Code(c) if c.convtype == ConvTypeV::Decimal) && matches!(&v[2], Element::String(t) if t.len() == 1 && t.as_bytes()[0] == b'b') && matches!(&v[3], Element::Code(c) if c.convtype == ConvTypeV::Percent), "obligation: literal text and codes alternate in input order and tile the format string"),
+            Err(_) => panic!("obligation: a well-formed format string parses"),
+        }
+    }
     fn check_format_arr(n: usize) {
         // distinct small values: the obligation is about ORDER of consumption, not about number conversion
         let w: u8 = if kani::any() { 1 } else { 5 }; let p: u8 = if kani::any() { 2 } else { 6 }; let v: u8 = if kani::any() { 3 } else { 9 };
